@@ -138,10 +138,10 @@ theorem EstInv.tau_le {s : Sk Rat} {L : List E} (h : EstInv s L) (hr : s.R ≠ [
   rw [div_le_iff₀ hr0]
   exact h.hHeavy e he
 
-theorem updateDispatch_spec (s : Sk Rat) (ins L : List E) (hinv : Inv0 s ins L)
+theorem updateDispatch_spec (T : Tunables) (s : Sk Rat) (ins L : List E) (hinv : Inv0 s ins L)
     (item : Int) (w : Rat) (mark : Bool) (ds : Draws Rat)
     (hw : 0 < w) (hmg : mark = true → s.gadget = true) :
-    ∃ s' ds' L', updateDispatch s item w mark ds = some (s', ds') ∧ Inv0 s' (mkEntry s item w mark :: ins) L' ∧
+    ∃ s' ds' L', updateDispatch T s item w mark ds = some (s', ds') ∧ Inv0 s' (mkEntry s item w mark :: ins) L' ∧
       s'.k = s.k ∧ s'.gadget = s.gadget ∧ s'.rf = s.rf ∧ s'.n = s.n ∧
       (s.R ≠ [] → s'.R ≠ [] ∧ s.totalWtR * (s'.R.length : Rat) ≤ s'.totalWtR * (s.R.length : Rat)) := by
   have hpos' : ∀ e ∈ mkEntry s item w mark :: ins, 0 < e.wt := by
@@ -209,12 +209,20 @@ theorem updateDispatch_spec (s : Sk Rat) (ins L : List E) (hinv : Inv0 s ins L)
     have hWpos : 0 < s.totalWtR := by
       rw [hest.wtR]; exact sumW_pos hLne (fun e he => hinv.pos e (hLsub e he))
     -- the validity check cannot fire
-    have hchk : (s.H.length != 0 && Num.lt (wtAt s.H 0) (Num.div s.totalWtR (Num.ofNat s.R.length))) = false := by
+    have hchk : (s.H.length != 0 && Num.lt (wtAt s.H 0)
+        (if T.validModeSlack then Num.mul (Num.div s.totalWtR (Num.ofNat s.R.length))
+            (Num.sub (Num.one : Rat) (Num.ofFrac T.slackNum T.slackDen))
+         else Num.div s.totalWtR (Num.ofNat s.R.length))) = false := by
       cases hH : s.H with
       | nil => simp
       | cons r t =>
-        have := hest.tau_le hR (e := r) (by rw [hH]; simp)
-        simp [wtAt_zero_cons, not_lt.mpr this]
+        have h1 := hest.tau_le hR (e := r) (by rw [hH]; simp)
+        have htau0 : 0 ≤ s.totalWtR / (s.R.length : Rat) := le_of_lt (div_pos hWpos hr0)
+        have hS : (0 : Rat) ≤ (T.slackNum : Rat) / (T.slackDen : Rat) := by positivity
+        have h2 : s.totalWtR / (s.R.length : Rat) * (1 - (T.slackNum : Rat) / (T.slackDen : Rat)) ≤ r.wt := by nlinarith
+        by_cases hsl : T.validModeSlack = true
+        · simp [hsl, wtAt_zero_cons, Num.ofFrac, not_lt.mpr h2]
+        · simp [hsl, wtAt_zero_cons, not_lt.mpr h1]
     simp only [hchk, Bool.false_eq_true, if_false]
     -- root of H is its minimum
     have hrootmin : ∀ e ∈ s.H, wtAt s.H 0 ≤ e.wt := fun e he => heap_root_min hest.heap he
@@ -388,23 +396,23 @@ theorem updateDispatch_spec (s : Sk Rat) (ins L : List E) (hinv : Inv0 s ins L)
 
 /-- `update` from a state satisfying the counter-free invariant (used for union gadget copies whose `n_` is the
     union's counter) -/
-theorem update0_spec (s : Sk Rat) (ins L : List E) (hinv : Inv0 s ins L) (item : Int) (w : Rat) (mark : Bool) (ds : Draws Rat)
+theorem update0_spec (T : Tunables) (s : Sk Rat) (ins L : List E) (hinv : Inv0 s ins L) (item : Int) (w : Rat) (mark : Bool) (ds : Draws Rat)
     (hw : 0 < w) (hmg : mark = true → s.gadget = true) :
-    ∃ s' ds' L', update s item w mark ds = some (s', ds') ∧ Inv0 s' (mkEntry s item w mark :: ins) L' ∧
+    ∃ s' ds' L', update T s item w mark ds = some (s', ds') ∧ Inv0 s' (mkEntry s item w mark :: ins) L' ∧
       s'.k = s.k ∧ s'.gadget = s.gadget ∧ s'.rf = s.rf ∧ s'.n = s.n + 1 ∧
       (s.R ≠ [] → s'.R ≠ [] ∧ s.totalWtR * (s'.R.length : Rat) ≤ s'.totalWtR * (s.R.length : Rat)) := by
   have hvalid : validWeight w = true := by simp [validWeight, not_lt.mpr (le_of_lt hw)]
   have hne0 : Num.eq w (Num.zero : Rat) = false := by simp [ne_of_gt hw]
   unfold update
   simp only [hvalid, hne0, Bool.not_true, Bool.false_eq_true, if_false]
-  exact updateDispatch_spec { s with n := s.n + 1 } ins L (hinv.setN _) item w mark ds hw hmg
+  exact updateDispatch_spec T { s with n := s.n + 1 } ins L (hinv.setN _) item w mark ds hw hmg
 
-theorem update_spec (s : Sk Rat) (ins L : List E) (hinv : Inv s ins L) (item : Int) (w : Rat) (mark : Bool) (ds : Draws Rat)
+theorem update_spec (T : Tunables) (s : Sk Rat) (ins L : List E) (hinv : Inv s ins L) (item : Int) (w : Rat) (mark : Bool) (ds : Draws Rat)
     (hw : 0 < w) (hmg : mark = true → s.gadget = true) :
-    ∃ s' ds' L', update s item w mark ds = some (s', ds') ∧ Inv s' (mkEntry s item w mark :: ins) L' ∧
+    ∃ s' ds' L', update T s item w mark ds = some (s', ds') ∧ Inv s' (mkEntry s item w mark :: ins) L' ∧
       s'.k = s.k ∧ s'.gadget = s.gadget ∧ s'.rf = s.rf ∧
       (s.R ≠ [] → s'.R ≠ [] ∧ s.totalWtR * (s'.R.length : Rat) ≤ s'.totalWtR * (s.R.length : Rat)) := by
-  obtain ⟨s', ds', L', h1, h2, h3, h4, h5, h6, h7⟩ := update0_spec s ins L hinv.toInv0 item w mark ds hw hmg
+  obtain ⟨s', ds', L', h1, h2, h3, h4, h5, h6, h7⟩ := update0_spec T s ins L hinv.toInv0 item w mark ds hw hmg
   exact ⟨s', ds', L', h1, { toInv0 := h2, n_eq := by rw [h6, hinv.n_eq]; simp }, h3, h4, h5, h7⟩
 
 end DS.VarOpt
